@@ -6,9 +6,8 @@ A corollary of `diag_pos_run` for file systems that hold nothing but the main fi
 `.include` can then only fail or name `main` itself): every diagnostic of a finished run names `main`, and its line and
 column are those of a statement the main file parses into (or it is the report of the parse error that ended the file).
 
-NOT proved here (asked for as a provenance theorem): that each diagnostic was pushed while processing THAT element
-(`Blames fs main d el`) with a kind that processing `el` can push.  For the classes of C06's third clause the kind is
-exact: `Props/C06Invalid.lean` (`Reported`: the diagnostic list IS `[⟨main, el.line, el.col, k⟩]`).
+The provenance statement (each diagnostic is blamed on a statement that can push its KIND, any include tree) is
+`run_blames` / `run_blames_single` in Props/C12Blame.lean.
 -/
 namespace Trion.Asm
 open Trion
